@@ -174,6 +174,12 @@ struct SinkState {
     trace: Vec<String>,
     trace_on: bool,
     tids: HashMap<String, u64>,
+    /// keys whose publication completed (explicit `done()`, not drop glue) since the last `set_mode`
+    completed: Vec<u32>,
+    dropping: Option<u32>,
+    /// tasks that took the backward-projection lock and have not entered the guarded block yet / that created a batch there
+    after_bplock: HashSet<u64>,
+    unguarded_bp_batch: HashSet<u64>,
 }
 /// pause labels owned by this harness (other properties' pause points are passed through untouched)
 const MY_PAUSES: &[&str] = &["q.registered", "q.loop", "q.tfc.before", "q.tfc.after", "q.wg.before", "q.wg.after", "q.processed", "r.check", "r.checked", "r.recompute", "tfc.item",
@@ -186,7 +192,7 @@ fn cur_tid(st: &mut SinkState) -> u64 {
 impl Default for SinkState {
     fn default() -> Self {
         SinkState { mode: Mode::Off, count: 0, labels: vec![], reached: None, released: false, gate_waker: None, locks: BTreeMap::new(), bplocks: BTreeMap::new(), armed: vec![],
-            batch_new: 0, batch_submit: 0, guard_enter: 0, guard_exit: 0, guard_detach: 0, epoch_bumps: 0, trace: vec![], trace_on: false, tids: HashMap::new() }
+            batch_new: 0, batch_submit: 0, guard_enter: 0, guard_exit: 0, guard_detach: 0, epoch_bumps: 0, trace: vec![], trace_on: false, tids: HashMap::new(), completed: vec![], dropping: None, after_bplock: HashSet::new(), unguarded_bp_batch: HashSet::new() }
     }
 }
 #[derive(Default)]
@@ -210,7 +216,7 @@ fn sink() -> Arc<CutSink> { SINK.get().unwrap().clone() }
 impl CutSink {
     fn key_of(&self, id: Option<&QueryID>) -> Option<u32> { id.and_then(|i| self.ids.read().unwrap().get(i).copied()) }
     fn reset(&self) { *self.st.lock().unwrap() = SinkState::default(); }
-    fn set_mode(&self, m: Mode) { let mut st = self.st.lock().unwrap(); st.mode = m; st.count = 0; st.labels.clear(); }
+    fn set_mode(&self, m: Mode) { let mut st = self.st.lock().unwrap(); if m != Mode::Off { st.completed.clear(); } st.mode = m; st.count = 0; st.labels.clear(); }
     fn mark(&self, m: &str) { let mut st = self.st.lock().unwrap(); if st.trace_on { st.trace.push(m.to_string()); } }
     fn release(&self) { let w = { let mut st = self.st.lock().unwrap(); st.released = true; st.gate_waker.take() }; if let Some(w) = w { w.wake(); } }
     fn quiescence(&self) -> Vec<String> {
@@ -246,18 +252,19 @@ impl Sink for SinkHandle {
         let mut st = s.st.lock().unwrap();
         match label {
             "lock" => { *st.locks.entry(k.unwrap_or(u32::MAX)).or_insert(0) += 1; }
-            "unlock" => { *st.locks.entry(k.unwrap_or(u32::MAX)).or_insert(0) -= 1; }
-            "bplock" => { *st.bplocks.entry(k.unwrap_or(u32::MAX)).or_insert(0) += 1; }
+            "unlock" => { *st.locks.entry(k.unwrap_or(u32::MAX)).or_insert(0) -= 1; if st.dropping == k { st.dropping = None; } else if let Some(k) = k { st.completed.push(k); } }
+            "bplock" => { *st.bplocks.entry(k.unwrap_or(u32::MAX)).or_insert(0) += 1; let t = cur_tid(&mut st); st.after_bplock.insert(t); }
             "bpunlock" => { *st.bplocks.entry(k.unwrap_or(u32::MAX)).or_insert(0) -= 1; }
             "reg" => { let c = s.low.read().unwrap().get(&n).copied().unwrap_or(u32::MAX); st.armed.push((c, k.unwrap_or(u32::MAX))); }
             "unreg" | "defuse" => { if let Some(p) = st.armed.iter().rposition(|(_, c)| Some(*c) == k) { st.armed.remove(p); } }
-            "batch.new" => st.batch_new += 1,
-            "batch.submit" => st.batch_submit += 1,
-            "guard.enter" => st.guard_enter += 1,
+            "batch.new" => { st.batch_new += 1; let t = cur_tid(&mut st); if st.after_bplock.contains(&t) { st.unguarded_bp_batch.insert(t); } }
+            "batch.submit" => { st.batch_submit += 1; let t = cur_tid(&mut st); st.unguarded_bp_batch.remove(&t); }
+            "guard.enter" => { st.guard_enter += 1; let t = cur_tid(&mut st); st.after_bplock.remove(&t); }
             "guard.exit" => st.guard_exit += 1,
             "guard.detach" => st.guard_detach += 1,
             "epoch.bump" => st.epoch_bumps += 1,
-            "is.acq" | "drop.lock" | "drop.bp" => {}
+            "drop.lock" => { if n == 0 { st.dropping = k; } }
+            "is.acq" | "drop.bp" => {}
             _ => return,
         }
         if st.trace_on {
@@ -431,6 +438,12 @@ struct RunOut {
     aborted: Option<String>,
     blocked_on_held: bool,
     held_mode: bool,
+    /// for the attribution of value failures: what the cut-short target did take effect
+    completed_before_cut: Vec<u32>,
+    applied_writes: Vec<Write>,
+    cut_write: Option<Write>,
+    /// what the engine itself answered last for every key (the persistence check compares the re-opened store with it)
+    last_vals: BTreeMap<u32, i64>,
 }
 
 enum Driven<T> { Done(T), Cut, Timeout }
@@ -525,6 +538,7 @@ async fn run_fault<V: Variant>(case: &Case, target: usize, fault: &Fault, kv: &M
             let r = drive(AssertUnwindSafe(query_key(sh, &te, *k)).catch_unwind(), false, &mut dp).await;
             match r {
                 Driven::Done(Ok(v)) => {
+                    out.last_vals.insert(*k, v);
                     if let Some(allowed) = j.uncertain_in.remove(k) { if allowed.contains(&v) { j.truth.inputs.insert(*k, v); } }
                     if let Some(allowed) = j.uncertain_ex.remove(k) { if allowed.contains(&v) { j.truth.ext.insert(*k, v); } }
                     let exp = j.expected(*k);
@@ -599,6 +613,7 @@ async fn run_fault<V: Variant>(case: &Case, target: usize, fault: &Fault, kv: &M
                 let r = drive(async move { let mut vs = vec![]; for k in ks { vs.push(query_key(&sh2, te2, *k).await); } vs }, cutting, &mut drop_panic).await;
                 out.pauses = s.st.lock().unwrap().labels.clone();
                 out.cut_label = s.st.lock().unwrap().reached.clone();
+                out.completed_before_cut = s.st.lock().unwrap().completed.clone();
                 s.set_mode(Mode::Off);
                 match r {
                     Driven::Done(vs) => { for (k, v) in ks.iter().zip(vs) { let exp = j.expected(*k); if v != exp { out.mismatches.push((idx, *k, v.to_string(), exp)); } } drop(te); }
@@ -659,22 +674,24 @@ async fn run_fault<V: Variant>(case: &Case, target: usize, fault: &Fault, kv: &M
                 let cutting = fault.is_cut();
                 let mut was_cut = false;
                 let mut applied_refresh = false;
+                let mut applied_session: Vec<Write> = vec![];
                 match drive(engine.input_session(), cutting, &mut drop_panic).await {
                     Driven::Timeout => { fail!("C05:hang", "op {idx}: input_session() did not complete"); hang = true; }
                     Driven::Cut => { was_cut = true; /* no session object exists */ }
                     Driven::Done(mut sess) => {
                         let mut applied: Vec<Write> = vec![];
+                        let applied_ref = &mut applied_session;
                         for w in ws {
                             if was_cut && !commit_after { break; }
                             match w {
                                 Write::Set(k, v) => match (if was_cut { drive_soft(sess.set_input(In(*k), *v), hold_call, &mut out.blocked_on_held, &mut drop_panic).await } else { drive(sess.set_input(In(*k), *v), cutting, &mut drop_panic).await }) {
-                                    Driven::Done(_) => { applied.push(w.clone()); j.session_applied_partial(std::slice::from_ref(w)); }
-                                    Driven::Cut => { was_cut = true; let old = j.truth.inputs.get(k).copied(); j.uncertain_in.insert(*k, old.into_iter().chain(std::iter::once(*v)).collect()); if hold_call { out.held_mode = true; for _ in 0..4 { tokio::task::yield_now().await; } } else { s.release(); settle().await; } }
+                                    Driven::Done(_) => { applied.push(w.clone()); applied_ref.push(w.clone()); j.session_applied_partial(std::slice::from_ref(w)); }
+                                    Driven::Cut => { was_cut = true; out.cut_write = Some(w.clone()); let old = j.truth.inputs.get(k).copied(); j.uncertain_in.insert(*k, old.into_iter().chain(std::iter::once(*v)).collect()); if hold_call { out.held_mode = true; for _ in 0..4 { tokio::task::yield_now().await; } } else { s.release(); settle().await; } }
                                     Driven::Timeout => { fail!("C05:hang", "op {idx}: set_input did not complete"); hang = true; break; }
                                 },
                                 Write::Refresh => match (if was_cut { drive_soft(sess.refresh::<Ex>(), hold_call, &mut out.blocked_on_held, &mut drop_panic).await } else { drive(sess.refresh::<Ex>(), cutting, &mut drop_panic).await }) {
-                                    Driven::Done(_) => { applied_refresh = true; applied.push(w.clone()); j.session_applied_partial(std::slice::from_ref(w)); }
-                                    Driven::Cut => { was_cut = true; if hold_call { out.held_mode = true; for _ in 0..4 { tokio::task::yield_now().await; } } else { s.release(); settle().await; } }
+                                    Driven::Done(_) => { applied_refresh = true; applied.push(w.clone()); applied_ref.push(w.clone()); j.session_applied_partial(std::slice::from_ref(w)); }
+                                    Driven::Cut => { was_cut = true; out.cut_write = Some(w.clone()); if hold_call { out.held_mode = true; for _ in 0..4 { tokio::task::yield_now().await; } } else { s.release(); settle().await; } }
                                     Driven::Timeout => { fail!("C05:hang", "op {idx}: refresh did not complete"); hang = true; break; }
                                 },
                                 Write::World(..) => {}
@@ -702,6 +719,7 @@ async fn run_fault<V: Variant>(case: &Case, target: usize, fault: &Fault, kv: &M
                 out.pauses = s.st.lock().unwrap().labels.clone();
                 out.cut_label = s.st.lock().unwrap().reached.clone();
                 s.set_mode(Mode::Off);
+                out.applied_writes = ws.iter().filter(|w| matches!(w, Write::World(..))).cloned().chain(applied_session.iter().cloned()).collect();
                 if was_cut {
                     s.release(); settle().await;
                     // the world cells were written by the harness; whether the refresh took effect is decided by the first read
@@ -713,13 +731,17 @@ async fn run_fault<V: Variant>(case: &Case, target: usize, fault: &Fault, kv: &M
         }
         out.execs_in_target = sh.log.lock().unwrap().iter().map(|e| e.key).collect();
         if hang { ok = false; break; }
-        if let Some(m) = &drop_panic { fail!(format!("C05:drop-panic:{}", out.cut_label.clone().unwrap_or_default().split('@').next().unwrap()), "op {idx}: dropping the future at {} panicked: {}", out.cut_label.clone().unwrap_or_default(), m.chars().take(160).collect::<String>()); }
+        if let Some(m) = &drop_panic { fail!(format!("C05:drop-panic:{}", if !s.st.lock().unwrap().unguarded_bp_batch.is_empty() { "bp.up.before".to_string() } else { out.cut_label.clone().unwrap_or_default().split('@').next().unwrap().to_string() }), "op {idx}: dropping the future at {} panicked: {}", out.cut_label.clone().unwrap_or_default(), m.chars().take(160).collect::<String>()); }
         if *fault != Fault::Count && !held {
             let q = s.quiescence();
             if !q.is_empty() {
                 let what = q[0].split(|c| c == '[' || c == '(').next().unwrap().to_string();
                 let lab = out.cut_label.clone().unwrap_or_default().split('@').next().unwrap().to_string();
-                let sig = if what == "batches" { format!("C05:batch-leak:{lab}") } else { format!("C05:quiescence:{what}") };
+                // a batch created by `done_backward_projection` before its guarded block and never submitted is F11 wherever the
+                // caller's future was cut (a sibling's pause can make the `upgrade_to_exclusive().await` of F11 block for real)
+                let f11 = !s.st.lock().unwrap().unguarded_bp_batch.is_empty();
+                let sig = if what == "batches" { format!("C05:batch-leak:{}", if f11 { "bp.up.before".to_string() } else { lab }) } else { format!("C05:quiescence:{what}") };
+                println!("W {sig}");
                 fail!(sig, "op {idx}: after the fault at {} and after detached continuations ran: {}", out.cut_label.clone().unwrap_or_default(), q.join(" "));
             }
             out.summary = s.summary();
@@ -745,7 +767,8 @@ async fn run_fault<V: Variant>(case: &Case, target: usize, fault: &Fault, kv: &M
         } else if h.contains("WriteBuffer dropped while still active") && out.cut_label.is_some() {
             // the active batch was dropped by a JoinSet child that the runtime aborted after the caller's drop: the same
             // event as a panic of the drop itself
-            fail!(format!("C05:drop-panic:{}", out.cut_label.clone().unwrap_or_default().split('@').next().unwrap()), "panic hook: {h}");
+            let f11 = !s.st.lock().unwrap().unguarded_bp_batch.is_empty();
+            fail!(format!("C05:drop-panic:{}", if f11 { "bp.up.before".to_string() } else { out.cut_label.clone().unwrap_or_default().split('@').next().unwrap().to_string() }), "panic hook: {h}");
         } else { fail!("C05:later-panic", "panic hook: {h}"); }
     }
     out.detached = s.st.lock().unwrap().guard_detach;
@@ -772,7 +795,7 @@ async fn run_fault<V: Variant>(case: &Case, target: usize, fault: &Fault, kv: &M
             let te = e2.clone().tracked().await;
             for k in all_keys_round(p) {
                 match drive(AssertUnwindSafe(query_key(&sh2, &te, k)).catch_unwind(), false, &mut dp).await {
-                    Driven::Done(Ok(v)) => { let exp = j.expected(k); if v != exp { fail!(if out.held_mode { "C05:persist-value:after-held-continuation" } else { "C05:persist-value" }, "after shutdown and re-open, key {k} = {v}, expected {exp} (the store misses committed batches)"); break; } }
+                    Driven::Done(Ok(v)) => { let exp = out.last_vals.get(&k).copied().unwrap_or_else(|| j.expected(k)); if v != exp { fail!(if out.held_mode { "C05:persist-value:after-held-continuation" } else { "C05:persist-value" }, "after shutdown and re-open, key {k} = {v}, but the engine answered {exp} before the shutdown (the store misses committed batches)"); break; } }
                     Driven::Done(Err(pl)) => { fail!("C05:persist-panic", "after shutdown and re-open, query {k} panicked: {}", payload_str(&pl).chars().take(160).collect::<String>()); break; }
                     _ => { fail!("C05:persist-hang", "after re-open query {k} hung"); break; }
                 }
@@ -854,7 +877,7 @@ fn is_guarded_label(l: &str) -> bool {
     b.starts_with("x.g.") || b.starts_with("sc.") || b.starts_with("c.g.") || b.starts_with("cq.") || b == "p.after" || b.starts_with("bp.g.") || b.starts_with("in.set.g") || b.starts_with("in.ref.g") || b.starts_with("in.commit") || b.starts_with("si.")
 }
 
-fn child_case<V: Variant>(case: &Case, max_cuts: u64, seed: u64, only: Option<(usize, Fault)>, resume_after: Option<String>) {
+fn child_case<V: Variant>(case: &Case, max_cuts: u64, seed: u64, only: Option<(usize, Fault)>, resume_after: Option<String>, trace_every: u64) {
     use std::io::Write as _;
     let so = std::io::stdout();
     let emit = |l: String| { let mut o = so.lock(); writeln!(o, "{l}").unwrap(); o.flush().unwrap(); };
@@ -872,20 +895,46 @@ fn child_case<V: Variant>(case: &Case, max_cuts: u64, seed: u64, only: Option<(u
         for (sig, d) in &base.fails { emit(format!("B {}\t{}", esc(sig), esc(d))); }
         for m in &base.mismatches { emit(format!("B C01:value\top {} key {} got {} expected {}", m.0, m.1, m.2, m.3)); }
     }
+    let mut run_no: u64 = 0;
     let mut one = |t: usize, f: &Fault, expect_label: Option<&str>, skipping: &mut bool| {
+        run_no += 1;
         let tag = format!("{} {}", t, f.render());
         if *skipping { if resume_after.as_deref() == Some(tag.as_str()) { *skipping = false; } return; }
         let plabel: String = match (expect_label, f) { (Some(l), _) => l.to_string(), (None, Fault::CutAt { label, .. }) => label.clone(), (None, Fault::Panic(k)) => format!("panic@{k}"), _ => "-".into() };
         emit(format!("P {tag}\t{plabel}"));
-        let o = run_blocking::<V>(case, t, f, true);
+        // the model has one innermost frame per task: executors that read several callees concurrently inside one task
+        // (unordered groups, `join_all`) are judged by the oracle only
+        let traced = run_no % trace_every == 0 && !case.program.has_unordered();
+        let o = run_blocking::<V>(case, t, f, traced);
         for (sig, d) in &o.fails { emit(format!("F {}\t{}\t{tag}", esc(sig), esc(d))); }
+        // value failures of a settle run in a case whose own baseline is clean: is it the cut, or does the SAME history
+        // without the cut (the target replaced by what of it took effect) fail the same way?  Then it is not a C05 failure.
+        let mut equiv_mis: BTreeSet<(u32, String, i64)> = BTreeSet::new();
+        if !o.mismatches.is_empty() && base_mis.is_empty() && !o.held_mode && f.is_cut() {
+            let mut variants: Vec<Case> = vec![];
+            match &case.ops[t] {
+                Op::Round(_) => {
+                    let mut c = case.clone();
+                    if !o.completed_before_cut.is_empty() { c.ops.insert(t, Op::Round(o.completed_before_cut.clone())); }
+                    variants.push(c);
+                }
+                Op::Session(_) => {
+                    let mut c = case.clone(); c.ops[t] = Op::Session(o.applied_writes.clone()); variants.push(c);
+                    if let Some(w) = &o.cut_write { let mut c = case.clone(); let mut ws = o.applied_writes.clone(); ws.push(w.clone()); c.ops[t] = Op::Session(ws); variants.push(c); }
+                }
+            }
+            for c in &variants {
+                let e = run_blocking::<V>(c, usize::MAX, &Fault::Count, false);
+                for m in &e.mismatches { equiv_mis.insert((m.1, m.2.clone(), m.3)); }
+            }
+        }
         for m in &o.mismatches {
-            let kind = if base_mis.contains(&(m.0, m.1)) { "M" } else if !base_mis.is_empty() { "S" } else { "V" };
+            let kind = if base_mis.contains(&(m.0, m.1)) { "M" } else if !base_mis.is_empty() { "S" } else if equiv_mis.contains(&(m.1, m.2.clone(), m.3)) { "Q" } else { "V" };
             let vsig = if o.held_mode { "C05:value:stale-after-held-continuation" } else { "C05:value" };
             emit(format!("{kind} {vsig}\top {} key {} got {} expected {} (fault at {})\t{tag}", m.0, m.1, m.2, m.3, o.cut_label.clone().unwrap_or_default()));
         }
         emit(format!("R {tag}\t{}\t{}\t{}", o.cut_label.clone().unwrap_or("-".into()), o.summary, o.detached));
-        for l in &o.trace { emit(format!("T {l}")); }
+        if traced { emit("H".into()); for l in &o.trace { emit(format!("T {l}")); } }
         if let (None, Some(l)) = (&o.cut_label, expect_label) { emit(format!("X {tag} expected {l}")); }
     };
     for t in targets {
@@ -977,7 +1026,8 @@ fn main() {
         let max_cuts: u64 = flag("--max-cuts").map(|x| x.parse().unwrap()).unwrap_or(40);
         let only = flag("--fault").map(|f| { let t: Vec<&str> = f.split_whitespace().collect(); (t[0].parse::<usize>().unwrap(), Fault::parse(&t[1..])) });
         let resume = flag("--resume-after");
-        if variant == "db" { child_case::<DbCfg>(&case, max_cuts, a.seed, only, resume); } else { child_case::<MemCfg>(&case, max_cuts, a.seed, only, resume); }
+        let te: u64 = flag("--trace-every").map(|x| x.parse().unwrap()).unwrap_or(1).max(1);
+        if variant == "db" { child_case::<DbCfg>(&case, max_cuts, a.seed, only, resume, te); } else { child_case::<MemCfg>(&case, max_cuts, a.seed, only, resume, te); }
         return;
     }
     parent(a);
@@ -988,12 +1038,13 @@ fn main() {
 // ------------------------------------------------------------------------------------------------
 struct Failure { sig: String, desc: String, case: String }
 
-fn run_child(exe: &std::path::Path, case_file: &str, variant: &str, max_cuts: u64, seed: u64, fault: Option<&str>, resume: Option<&str>, timeout: Duration) -> (Vec<String>, Option<String>) {
+fn run_child(exe: &std::path::Path, case_file: &str, variant: &str, max_cuts: u64, seed: u64, fault: Option<&str>, resume: Option<&str>, trace_every: u64, timeout: Duration) -> (Vec<String>, Option<String>) {
     use std::io::{BufRead, BufReader};
     let mut cmd = std::process::Command::new(exe);
     cmd.args(["--child", case_file, "--variant", variant, "--max-cuts", &max_cuts.to_string(), "--seed", &seed.to_string()]);
     if let Some(f) = fault { cmd.args(["--fault", f]); }
     if let Some(r) = resume { cmd.args(["--resume-after", r]); }
+    cmd.args(["--trace-every", &trace_every.to_string()]);
     cmd.stdout(std::process::Stdio::piped()).stderr(std::process::Stdio::piped());
     let mut ch = cmd.spawn().unwrap();
     let so = ch.stdout.take().unwrap();
@@ -1039,6 +1090,8 @@ fn parent(a: Args) {
     let rest = a.rest.clone();
     let flag = |n: &str| rest.iter().position(|x| x == n).map(|i| rest[i + 1].clone());
     let cfg_bits = flag("--cfg").unwrap_or("000".into());
+    let trace_every: u64 = flag("--trace-every").map(|x| x.parse().unwrap()).unwrap_or(1).max(1);
+    let mut traced_runs = 0u64;
     let variants: Vec<String> = flag("--variants").map(|v| v.split(',').map(|s| s.to_string()).collect()).unwrap_or(vec!["mem".into(), "db".into()]);
     if let Some(rp) = &a.replay {
         // replay file: optional first line `#fault <variant> <target> <fault…>`, then the case text
@@ -1078,14 +1131,18 @@ fn parent(a: Args) {
             let mut resume: Option<String> = None;
             let mut restarts = 0;
             loop {
-            let (lines, died) = run_child(&exe, &cf, &v_use, max_cuts, a.seed.wrapping_add(ci as u64), fault_s.as_deref(), resume.as_deref(), Duration::from_secs(if quick { 240 } else { 900 }));
+            let (lines, died) = run_child(&exe, &cf, &v_use, max_cuts, a.seed.wrapping_add(ci as u64), fault_s.as_deref(), resume.as_deref(), if fault_s.is_some() { 1 } else { trace_every }, Duration::from_secs(if quick { 240 } else { 900 }));
             let mut last_p = String::new();
             let mut last_label = String::new();
+            let mut last_run = String::new();
+            let mut last_w = String::new();
             for l in &lines {
                 let (tag, body) = l.split_at(1);
                 let body = body.trim_start();
                 match tag {
-                    "P" => { let mut it = body.split('\t'); last_p = it.next().unwrap().to_string(); last_label = it.next().unwrap_or("-").split('@').next().unwrap().to_string(); }
+                    "P" => { let mut it = body.split('\t'); last_p = it.next().unwrap().to_string(); last_label = it.next().unwrap_or("-").split('@').next().unwrap().to_string(); last_w.clear(); }
+                    "H" => { out.line(&last_run, "ok"); traced_runs += 1; }
+                    "W" => { last_w = body.to_string(); }
                     "T" => { let mut it = body.splitn(2, '\t'); let op = it.next().unwrap(); out.line(op, it.next().unwrap_or("ok")); }
                     "N" => { let t: Vec<&str> = body.split(' ').collect(); *dist.entry(format!("{v_use}:targets")).or_default() += 1; *dist.entry(format!("{v_use}:pause_points")).or_default() += t[1].parse::<u64>().unwrap(); }
                     "R" => {
@@ -1097,7 +1154,7 @@ fn parent(a: Args) {
                         *label_hits.entry(lab.clone()).or_default() += 1;
                         if f.get(3).map(|d| *d != "0").unwrap_or(false) { *dist.entry(format!("{v_use}:runs_with_detached_continuation")).or_default() += 1; }
                         { use std::hash::{Hash, Hasher}; let mut h = std::collections::hash_map::DefaultHasher::new(); (&text, &v_use, f[0]).hash(&mut h); if f[1] != "-" { distinct.insert(h.finish()); } }
-                        out.line(&format!("run {cfg_bits} {name} {v_use} {}", f[0]), "ok");
+                        last_run = format!("run {cfg_bits} {name} {v_use} {}", f[0]);
                     }
                     "F" | "V" => {
                         let f: Vec<&str> = body.split('\t').collect();
@@ -1107,6 +1164,7 @@ fn parent(a: Args) {
                     }
                     "M" => { *dist.entry("value_failures_also_in_baseline".into()).or_default() += 1; }
                     "S" => { *dist.entry("value_failures_in_cases_whose_baseline_fails_elsewhere".into()).or_default() += 1; }
+                    "Q" => { *dist.entry("value_failures_also_in_the_equivalent_history_without_the_cut".into()).or_default() += 1; }
                     "B" => { *dist.entry("baseline_failures(other properties)".into()).or_default() += 1; }
                     "X" => { *dist.entry("cut_not_reached".into()).or_default() += 1; }
                     _ => {}
@@ -1114,7 +1172,9 @@ fn parent(a: Args) {
             }
             match died {
                 Some(d) => {
-                    let sig = format!("C05:process-{}:{last_label}", if d == "hang" { "hang" } else { "died" });
+                    // the run announced an unsubmitted batch before it died: the death is its consequence (same class)
+                    let cls = if let Some(l) = last_w.strip_prefix("C05:batch-leak:") { l.to_string() } else { last_label.clone() };
+                    let sig = format!("C05:process-{}:{cls}", if d == "hang" { "hang" } else { "died" });
                     let replay = format!("#fault {v_use} {}\n{}", last_p, text);
                     *dist.entry(format!("fail:{sig}")).or_default() += 1;
                     if failures.iter().filter(|x| x.sig == sig).count() < 3 { failures.push(Failure { sig, desc: format!("[{name} {v_use}] child process {d} during run `{last_p}`"), case: replay }); }
@@ -1129,6 +1189,7 @@ fn parent(a: Args) {
         if samples.len() < 3 { samples.push(text.clone()); }
     }
     for (l, c) in &label_hits { dist.insert(format!("cut_at:{l}"), *c); }
+    dist.insert("runs_with_trace_validation".into(), traced_runs);
     let mut rep = String::from("{");
     rep.push_str(&format!("\"evaluations\":{evals},\"distinct_nontrivial\":{},", distinct.len()));
     rep.push_str(&format!("\"rule\":{},", jstr("one evaluation = one history replayed on a fresh engine with one fault (future dropped at pause point i of the target op, or one executor panicking), followed by the rest of the history, a final all-keys round, shutdown (db variant: re-open and query); non-trivial = the fault point was actually reached; distinct by hash of (case, variant, target, fault)")));
